@@ -15,6 +15,7 @@ from vf import core
 from vf.ref import dims, siinterp
 from vf.gen import dyadic
 from vf.gen import c04_programs as G
+from vf.gen import c04_dtypeaxis as DA
 from .common import chunks
 
 RULE = ("one evaluation = one observable (returned value, out= buffer, alias of an in-place target) of one node of one variant of an "
@@ -24,7 +25,12 @@ RULE = ("one evaluation = one observable (returned value, out= buffer, alias of 
         "operations drawn from 52 operations x call forms {operator, ufunc call, out= unyt buffer, out= ndarray, in-place operator, "
         "ufunc.outer, reduce/accumulate, np function, method} = 145 catalogue entries, leaves independently re-expressed in 2-3 other "
         "commensurable units, two registries per pool) and an enumerated depth-1 matrix (every operation x form x ordered pair of pool "
-        "units x operand kinds array/scalar/bare x exponent kinds x axes; dyadic pool also x operand dtypes f4/i8/c16). "
+        "units x operand kinds array/scalar/bare x exponent kinds x axes; dyadic pool also x operand dtypes f4/i8/c16), and the leaf-dtype "
+        "axis (vf/gen/c04_dtypeaxis.py): multiplicative programs (multiply / divide / matmul / vecdot / dot / inner / vdot / outer in "
+        "operator, call and ufunc.outer form without out=, depth 1 enumerated and depth 2-3 random chains) whose units cancel partly into "
+        "a bare coefficient of every class (fraction, non-integer, integer, >= 1e6, none), leaves in int8..uint64, float16/32/64, "
+        "complex64/128 and as Python int/float literals, built by the class constructors or by number*Unit, in 4 variants (as drawn; every "
+        "leaf as float64; every leaf re-expressed - integer leaves stay integers when the unit ratio is an integer; every leaf in SI units). "
         "distinct = (pool, operation, form, operand-unit relation, operand kinds incl. dtype, observable, law) tuples judged on a case")
 ASSUMPTIONS = (
     "operand SI magnitude = operand.d * operand.units.base_value as observed on the leaf (the property's observe_at); that the unit table is right is C02's subject - leaf scales are cross-checked against vf/ref (dyadic: exactly, real: 1e-5) and a disagreeing program is skipped and noted",
@@ -37,10 +43,13 @@ ASSUMPTIONS = (
     "method call forms (a.dot, a.sum, a.mean, ...) are driven only on quantities: a plain ndarray's C methods (ndarray.dot(quantity) returns a bare array) cannot be intercepted by unyt and are not unyt call forms",
     "every power is charged NEAR ulps even in the dyadic pool (NumPy evaluates x**2, x**0.5, np.power(x, array) by different routines that differ in the last place), so powers never feed a discontinuous operation in the dyadic pool; cube-root units (4096**(1/3) is not exactly 16 in float pow) get 4 ulp slack and are never leaf units there",
     "unit-scale noise: unyt evaluates the scale of unit**(1/3) with float pow (binary 1/3 amplified by ln(scale): 17 ulp for 2**96) and its lru-cached unit rules later hand that unit object back for any unit that compares equal (same expression, scale within 1e-9), so a result scale may be a few 1e-15 off through history. Tolerated as rounding noise of the unit table, not an arithmetic defect: a dyadic-pool result whose scale is not a power of two gets (4 + 0.5*|log2 scale|) ulp, every real-pool result 0.5*|log2 scale| ulp, and the slack is handed on to everything computed from that result",
+    "unit-scale noise, second manifestation: the cached rules also hand back the *coefficient* computed for the noisy unit (np.cbrt(np.prod(a_km2)) / a_km2 fills the cache; afterwards 6 km**2 // 2 km**2 is 2.999999999999998 in that process). Same decision: once a result unit with a non-power-of-two scale has been seen in a process, a dyadic-pool node with an operand whose unit prints like it gets that unit's slack (counted: dyadic:operand-unit-equals-a-noisy-unit-seen-earlier); errors of an ulp are not what C04 states, off-by-one quotients and wrong factors still fail",
     "left-most-unit rule compares the unit expression and the scale to 1e-12: unyt's cached unit rules may hand back an equal unit object whose scale differs in the last place (60.00000000000001 vs 60.0 for min)",
     "float32 operands (dtype matrix) are combined only with units at most 2**12 apart: a 2**24 ratio exhausts the 24-bit significand and the exact-sum argument no longer holds",
     "an out= ndarray / bare in-place target has no unit label: its numbers must equal the numbers of the returned quantity",
     "the same symbol defined with different sizes in two registries is a legitimate operand pair (custom-registry units of the quantifier); each operand means what its own registry says",
+    "leaf-dtype axis: only the physical value is judged, never the dtype of the result; the rounding charged per operation is that of the narrowest float among the leaves of the variant (float16 2**-10, float32/complex64 2**-23), a failing element is undecidable only when its error bar exceeds max(1e-3, 64 eps of that dtype); programs are generated so that no intermediate leaves the narrowest integer dtype among the leaves (NumPy wraps integers silently: not unyt's arithmetic) nor the normal range of a float16/float32 leaf; in the bit-for-bit dyadic pool float16 leaves and float32/complex64 divisions are not driven (they round differently from the float64 reference)",
+    "leaf-dtype axis: a leaf that does not hold exactly the intended numbers and unit after construction is skipped and noted (construction is C16's subject)",
 )
 MIN_EVALS = 100000
 TIMEOUT = 1500
@@ -68,6 +77,13 @@ def batches(tier, seed):
         b.append((f"dy/rand/{k}", ("rand", "dyadic", seed, per, 3 if q else 4)))
         b.append((f"re/rand/{k}", ("rand", "real", seed, per, 3 if q else 4)))
     b.append(("dy/matrix/dtypes/0", ("dtypes", "dyadic", tier)))
+    # leaf-dtype axis (vf/gen/c04_dtypeaxis.py): multiplicative programs whose units cancel partly, leaves in every storage type
+    for pool, nparts in (("real", 12 if q else 48), ("dyadic", 4 if q else 16)):
+        for i in range(nparts):
+            b.append((f"{pool[:2]}/dtaxis/matrix/{i}", ("dtaxis", pool, tier, "matrix", i, nparts, 0)))
+    for k in range(8 if q else 32):
+        for pool in ("real", "dyadic"):
+            b.append((f"{pool[:2]}/dtaxis/chain/{k}", ("dtaxis", pool, tier, "chain", k, 0, seed)))
     for pool in ("dyadic", "real"):
         groups = {}
         for op, (cat, forms) in G.CATALOGUE.items():
@@ -104,6 +120,9 @@ class Env:
                 self.regs[tag] = reg
             self.scratch = unyt.Unit("hr")
         self._units = {}
+        self.noisy = {}         # dyadic pool: unit expression -> slack, for every result unit seen in this process whose scale was not a power of two
+        self.noise = 0.0        # slack of the node being judged: an operand unit prints like one of those (unyt's cached unit rules treat them as equal)
+        self.undec = 1e-3       # a failing element whose error bar is wider than this (relative) is undecidable, not a violation
 
     def unit(self, expr, reg):
         k = (expr, reg)
@@ -125,6 +144,9 @@ def build_leaves(env, prog, j, rec):
     objs, refs = {}, {}
     for i, nd in enumerate(prog["nodes"]):
         if nd["op"] != "leaf":
+            continue
+        if "dtypes" in nd:       # leaf-dtype axis: per-variant dtype / constructor / explicit numbers
+            objs[i], refs[i] = build_leaf_dtaxis(env, nd, j, rec)
             continue
         shape = tuple(nd["shape"])
         v0 = np.array(nd["vals"], dtype=float).reshape(shape)
@@ -162,6 +184,76 @@ def build_leaves(env, prog, j, rec):
             objs[i] = unyt.unyt_array(np.array(vj, dtype=dt), uj)
         refs[i] = siinterp.leaf(vj, sj, rdj, relerr)
     return objs, refs
+
+
+def build_leaf_dtaxis(env, nd, j, rec):
+    """one leaf of variant j of a leaf-dtype-axis program -> (operand, reference value)"""
+    unyt, pool = env.unyt, env.pool
+    shape = tuple(nd["shape"])
+    tag = nd["dtypes"][j]
+    npname = DA.DT[tag][0]
+    cplx = nd.get("imag") is not None
+    v0 = np.array(nd["vals"], dtype=float).reshape(shape)
+    if cplx:
+        v0 = v0 + 1j * np.array(nd["imag"], dtype=float).reshape(shape)
+
+    def literal(v):
+        conv = int if tag == "pyint" else float
+        a = np.asarray(v)
+        return conv(a) if a.shape == () else np.vectorize(conv, otypes=[object])(a).tolist()
+    if nd["kind"] == "bare":
+        if npname is None:
+            obj = literal(v0) if shape == () else np.array(literal(v0))
+        else:
+            obj = np.array(v0, dtype=npname)
+            if shape == ():
+                obj = obj[()]
+        return obj, siinterp.leaf(v0, 1.0, dims.ZERO)
+    reg = nd["reg"]
+    u0 = env.unit(nd["units"][0], reg)
+    uj = env.unit(nd["units"][j], reg)
+    rs0, rd0 = DA.ref(pool, nd["units"][0], reg)
+    rsj, rdj = DA.ref(pool, nd["units"][j], reg)
+    s0, sj = float(u0.base_value), float(uj.base_value)
+    if pool.exact:
+        if s0 != rs0 or sj != rsj:
+            rec.note("leaf-scale-differs-from-pool-definition")
+            raise Skip()
+    elif abs(s0 - rs0) > 1e-5 * abs(rs0) or abs(sj - rsj) > 1e-5 * abs(rsj):
+        rec.note("leaf-scale-differs-from-ref-table")
+        raise Skip()
+    if dims.of_expr(uj.dimensions) != rdj:
+        rec.note("leaf-dimension-differs-from-ref-table")
+        raise Skip()
+    relerr = 0.0 if pool.exact else 3 * EPS
+    explicit = nd["vvals"][j]
+    if explicit is not None:
+        vj = np.array(explicit, dtype=float).reshape(shape)
+    elif nd["units"][j] == nd["units"][0]:
+        vj = v0
+    else:
+        vj = v0 * ((rs0 / rsj) if pool.exact else (s0 / sj))
+        if npname is not None and tag in DA.EPS_OF:
+            vj = np.asarray(vj).astype(npname).astype(complex if cplx else float)      # the operand is what the narrow dtype holds
+            if not pool.exact:
+                relerr = DA.EPS_OF[tag]
+    if npname is None:
+        val = literal(vj)
+    else:
+        val = np.array(vj, dtype=npname)
+        if shape == ():
+            val = val[()]
+    if nd.get("ctor") == "unitmul":
+        obj = val * uj
+    elif shape == ():
+        obj = unyt.unyt_quantity(val, uj)
+    else:
+        obj = unyt.unyt_array(val, uj)
+    held = np.asarray(obj.d)
+    if held.shape != shape or not np.array_equal(held.astype(complex), np.asarray(vj).astype(complex)) or str(obj.units.expr) != str(uj.expr):
+        rec.note("dtaxis:leaf-does-not-hold-the-intended-operand")      # construction is C16's subject: not judged here
+        raise Skip()
+    return obj, siinterp.leaf(vj, sj, rdj, relerr)
 
 
 # ------------------------------------------------------------------------------------------------ executing one node with unyt
@@ -333,8 +425,9 @@ def _f(num):
     return a.astype(complex) if a.dtype.kind == "c" else a.astype(float)
 
 
-def compare(num, scale, ref, exact, extra_slack=0.0):
-    """-> (ok, n_judged, worst) for magnitudes num*scale against the reference value"""
+def compare(num, scale, ref, exact, extra_slack=0.0, undec=1e-3):
+    """-> (ok, n_judged, worst) for magnitudes num*scale against the reference value; a failing element whose error bar exceeds
+    undec (relative) is undecidable"""
     r = ref.si
     if ref.isbool:
         got = np.asarray(num)
@@ -352,7 +445,7 @@ def compare(num, scale, ref, exact, extra_slack=0.0):
         if not exact:
             tol = tol + 4 * EPS * np.abs(r)
         good = (np.abs(si - r) <= tol) | (np.isnan(si) & np.isnan(r)) | (si == r)
-        undecidable = ref.und | ~np.isfinite(tol) | (tol > 1e-3 * np.abs(r)) & (tol > 0) & ~good
+        undecidable = ref.und | ~np.isfinite(tol) | (tol > undec * np.abs(r)) & (tol > 0) & ~good
         m = ~undecidable
     return bool(np.all(good[m])), int(m.sum()), None
 
@@ -433,7 +526,10 @@ def judge_node(env, rec, prog, j, i, nd, obs, ref, rel, kinds, left=None):
         slack = root_slack(scale, pool.exact)
         if pool.exact and slack:
             rec.count("dyadic:result-scale-not-a-power-of-two")
-        ok, n, why = compare(num, scale, rv, pool.exact, slack)
+        if pool.exact and env.noise:
+            rec.count("dyadic:operand-unit-equals-a-noisy-unit-seen-earlier")
+            slack = max(slack, env.noise)
+        ok, n, why = compare(num, scale, rv, pool.exact, slack, env.undec)
         if why == "shape":
             viol(name, "shape", f"C04:{tag}:shape:{name}", f"{where}: {name} has shape {np.shape(num)}, expected {rv.shape}")
             continue
@@ -512,8 +608,21 @@ def left_unit_rule(env, rec, prog, j, i, nd, obs, objs, rel, kinds):
 
 
 # ------------------------------------------------------------------------------------------------ running a program
-def run_program(env, rec, prog, group_log=None):
-    """all variants of one program; returns True when something was judged"""
+def run_program(env, rec, prog, group_log=None, rate=None, stats=None):
+    """all variants of one program; returns True when something was judged.
+    rate(prog, j) -> rounding charged per operation of variant j in units of the float64 default (leaf-dtype axis: the
+    precision of the narrowest float leaf); stats: dict counting ("si", j) nodes judged against the reference and
+    ("reexpr", j) nodes compared with variant 0"""
+    if rate is None:
+        return _run_program(env, rec, prog, group_log, None, stats)
+    r0, n0, u0 = env.I.r, env.I.n, env.undec
+    try:
+        return _run_program(env, rec, prog, group_log, rate, stats)
+    finally:
+        env.I.r, env.I.n, env.undec = r0, n0, u0
+
+
+def _run_program(env, rec, prog, group_log, rate, stats):
     nodes = prog["nodes"]
     nvar = prog["nvar"]
     pool = env.pool
@@ -521,6 +630,11 @@ def run_program(env, rec, prog, group_log=None):
     refvals = []
     judged = False
     for j in range(nvar):
+        if rate is not None:
+            k = rate(prog, j)
+            env.I.r = 0.0 if pool.exact else siinterp.ROUND * EPS * k
+            env.I.n = siinterp.NEAR * EPS * k
+            env.undec = max(1e-3, 64 * EPS * k)      # float16 leaves: 3 significant digits, decidable up to 6 %
         try:
             objs, refs = build_leaves(env, prog, j, rec)
         except Skip:
@@ -537,6 +651,8 @@ def run_program(env, rec, prog, group_log=None):
             except (siinterp.RefError, ValueError) as e:     # cannot happen for generated programs
                 raise AssertionError(("reference declined a generated node", nd, str(e)))
             rel = relation(env, nd, objs, refs)
+            if nd.get("cancel"):
+                rel += ":cancel-" + nd["cancel"]       # leaf-dtype axis: class of the coefficient the unit product leaves behind
             kinds = "".join(okind(objs[a]) for a in nd["args"])
             rec.reach(f"{nd['op']}/{nd['form']}")
             try:
@@ -551,15 +667,27 @@ def run_program(env, rec, prog, group_log=None):
                     rec.note(f"dbg:{type(e).__name__}:{str(e)[:120]} :: {describe(prog, j, i)} kinds={kinds} :: " + " | ".join(l.strip().replace(",", ";") for l in traceback.format_tb(e.__traceback__)[-3:]))
                 break
             rec.count(f"{pool.name}:executed")
+            env.noise = 0.0
+            if pool.exact and env.noisy:
+                for a_ in nd["args"]:
+                    u_ = getattr(objs[a_], "units", None)
+                    if u_ is not None and isinstance(objs[a_], np.ndarray):
+                        env.noise = max(env.noise, env.noisy.get(str(u_.expr), 0.0))
             keys = judge_node(env, rec, prog, j, i, nd, obs, refs[i], rel, kinds, left=objs[nd["args"][0]])
             keys += left_unit_rule(env, rec, prog, j, i, nd, obs, objs, rel, kinds)
             if keys:
                 return True
             judged = True
+            if stats is not None:
+                stats[("si", j)] = stats.get(("si", j), 0) + 1
             for n_, x_ in obs.items():        # what unyt hands on is only as exact as its unit scale: tell the reference
                 if n_ in ("ret", "ret0", "ret1") and hasattr(x_, "units") and isinstance(x_, np.ndarray):
                     rv_ = refs[i][int(n_[-1])] if isinstance(refs[i], tuple) else refs[i]
                     sl_ = root_slack(float(x_.units.base_value), pool.exact)
+                    if pool.exact and sl_:
+                        k_ = str(x_.units.expr)
+                        env.noisy[k_] = max(env.noisy.get(k_, 0.0), sl_)
+                    sl_ = max(sl_, env.noise if pool.exact else 0.0)
                     if sl_ and not rv_.isbool:
                         rv_.err = rv_.err + sl_ * np.abs(rv_.si)
             try:
@@ -609,13 +737,15 @@ def run_program(env, rec, prog, group_log=None):
                         if pool.exact and (R0.err.any() or Rj.err.any()):
                             tol = tol + 4 * EPS * np.abs(R0.si)
                         good = (np.abs(s0 - sj) <= tol) | (np.isnan(s0) & np.isnan(sj)) | (s0 == sj)
-                        m = ~(R0.und | Rj.und | ~np.isfinite(tol) | ((tol > 1e-3 * np.abs(R0.si)) & ~good))
+                        m = ~(R0.und | Rj.und | ~np.isfinite(tol) | ((tol > env.undec * np.abs(R0.si)) & ~good))
                 if m.any() and not np.all(good[m]):
                     bad = name
                     break
                 if m.any():
                     rec.ok((pool.name, nd["op"], nd["form"], oj[2], oj[3], name, "reexpression"))
                     rec.count(f"{pool.name}:reexpression-compared")
+                    if stats is not None:
+                        stats[("reexpr", j)] = stats.get(("reexpr", j), 0) + 1
             if bad is not None:
                 rec_v(rec, f"C04:{nd['op']}/{FC[nd['form']]}:reexpression-changes-result:{bad}:{oj[2]}",
                       f"{describe(prog, j, i)} gives {np.asarray(oj[1].get(bad)).tolist()} SI but {describe(prog, 0, i)} gives {np.asarray(o0[1][bad]).tolist()} SI", prog, j, i)
@@ -815,6 +945,8 @@ def worker(batch, rec):
                 rec.count(f"{pool}:programs-judged")
             if made <= 2:
                 rec.sample({"program": prog})
+    elif kind == "dtaxis":
+        worker_dtaxis(env, rec, bid, payload)
     elif kind == "dtypes":
         r = core.rng(0, bid)
         log = []
@@ -838,6 +970,65 @@ def worker(batch, rec):
         check_groups(env, rec, log)
 
 
+def worker_dtaxis(env, rec, bid, payload):
+    """leaf-dtype axis: enumerated depth-1 matrix (part i of n) or random multiplicative chains"""
+    _, pool, tier, what, i, nparts, seed = payload
+    q = tier == "quick"
+    nvar = 4
+    log = []
+
+    def run(prog):
+        stats = {}
+        rec.count("dtaxis:programs")
+        run_program(env, rec, prog, None, DA.rate_ulps, stats)
+        nsi0 = stats.get(("si", 0), 0)
+        for c in prog["dtclasses"]:
+            if c in DA.CLASSES and nsi0:
+                rec.count(f"dtaxis:{c}-leaves:judged-against-reference", nsi0)
+        cancels = {nd.get("cancel") for nd in prog["nodes"]} - {None, "none", "chain"}
+        if nsi0 and cancels and any(c in ("int", "uint", "pyint") for c in prog["dtclasses"]):
+            rec.count("dtaxis:integer-leaves-with-cancelling-units:judged", nsi0)
+        if stats.get(("reexpr", 1)):
+            rec.count("dtaxis:as-float64-compared", stats[("reexpr", 1)])
+        n = sum(v for (k, j), v in stats.items() if k == "reexpr" and j >= 2)
+        if n:
+            rec.count("dtaxis:reexpressed-compared", n)
+        for nd in prog["nodes"]:
+            if nd["op"] == "leaf" and nd["kind"] == "q":
+                for j in range(2, prog["nvar"]):
+                    if nd["dtypes"][j] in DA.INTLIKE and nd["units"][j] != nd["units"][0]:
+                        rec.count("dtaxis:integer-preserving-reexpressions")
+    if what == "matrix":
+        r = core.rng(0, bid)
+        for k, cell in enumerate(DA.matrix_cells(env.pool, tier)):
+            if k % nparts != i:
+                continue
+            prog = DA.cell_program(r, env.pool, cell, nvar)
+            if prog is None:
+                rec.count("dtaxis:cells-rejected-by-generator")
+                continue
+            rec.count(f"dtaxis:{pool}:matrix-programs")
+            run(prog)
+    else:
+        r = core.rng(seed, bid)
+        made = 0
+        for _ in range(220 if q else 1000):
+            prog = DA.random_chain(r, env.pool, nvar)
+            if prog is None:
+                rec.count("dtaxis:chains-rejected-by-generator")
+                continue
+            made += 1
+            rec.count(f"dtaxis:{pool}:chain-programs")
+            run(prog)
+            if made <= 1:
+                rec.sample({"program": prog})
+
+
+DT_NEED = ["dtaxis:real:matrix-programs", "dtaxis:dyadic:matrix-programs", "dtaxis:real:chain-programs", "dtaxis:dyadic:chain-programs",
+           "dtaxis:as-float64-compared", "dtaxis:reexpressed-compared", "dtaxis:integer-preserving-reexpressions",
+           "dtaxis:integer-leaves-with-cancelling-units:judged"] + [f"dtaxis:{c}-leaves:judged-against-reference" for c in DA.CLASSES]
+
+
 def extra(tier, seed, results):
     counters = {}
     reached = set()
@@ -847,7 +1038,7 @@ def extra(tier, seed, results):
         reached.update(r.get("reached", []))
     catalogue = {f"{op}/{f}" for op, (c, forms) in G.CATALOGUE.items() for f in forms}
     need = ["dyadic:executed", "real:executed", "dyadic:reexpression-compared", "real:reexpression-compared", "dyadic:matrix-programs",
-            "real:matrix-programs", "dyadic:dtype-matrix-programs", "left-unit-rule-held"]
+            "real:matrix-programs", "dyadic:dtype-matrix-programs", "left-unit-rule-held"] + DT_NEED
     zero = [k for k in need if not counters.get(k)]
     if zero:
         raise core.Inconclusive("sub-monitor-saw-nothing:" + ",".join(zero))
